@@ -39,7 +39,7 @@ func c09Check(cs c09Case) (ok bool, sig, expected, observed string) {
 		return false, "output-and-error/" + cs.Pos, expected, o.String()
 	case o.Kind == KErr && cs.Line > 0 && o.Line != cs.Line:
 		return false, "wrong-line/" + cs.Pos + "/" + digitsRe.ReplaceAllString(clip(o.Msg, 40), "N"), expected, o.String()
-	case o.Kind == KOut && strings.Contains(o.Out, "Textwire ERROR") && !strings.Contains(cs.Src, "@dump"): // @dump displays an error value by design
+	case o.Kind == KOut && strings.Contains(o.Out, "Textwire ERROR"):
 		return false, "error-text-in-output/" + cs.Pos, "a fault is reported through the returned error, never as text of a successful render", o.String()
 	case cs.Data != "good" && o.Kind != KErr:
 		return false, "unsupported-value-accepted/" + cs.Data, "an unsupported value anywhere in the data makes the call return an error", o.String()
@@ -282,7 +282,7 @@ func init() {
 	p := &Property{
 		ID:    "C09",
 		Level: "exploration",
-		Rule: "bounded-exhaustive untyped generation: atoms of every value kind (boundary integers, empty / non-ASCII strings, empty and nested arrays/objects, data variables of every supported Go kind incl. structs, pointers, nil pointers, nil slices/maps, and an unbound name) x every unary / binary / ternary / index / property / call form to expression depth 2 x every position (print, assignment, @if, @elseif, @each, each @for clause, @breakIf, @continueIf, array/object/struct index, @dump, ternary condition, array element, object value, call argument); all 8 present/absent combinations of @for clauses; every built-in name x 20 receivers x every argument tuple of length <=2 (thorough: <=3) from 19 boundary values; one unsupported value at 11 positions of the data.  [as built: a successful render must not contain the text of a Textwire error (except under @dump, which displays error values by design)]" +
+		Rule: "bounded-exhaustive untyped generation: atoms of every value kind (boundary integers, empty / non-ASCII strings, empty and nested arrays/objects, data variables of every supported Go kind incl. structs, pointers, nil pointers, nil slices/maps, and an unbound name) x every unary / binary / ternary / index / property / call form to expression depth 2 x every position (print, assignment, @if, @elseif, @each, each @for clause, @breakIf, @continueIf, array/object/struct index, @dump, ternary condition, array element, object value, call argument); all 8 present/absent combinations of @for clauses; every built-in name x 20 receivers x every argument tuple of length <=2 (thorough: <=3) from 19 boundary values; one unsupported value at 11 positions of the data.  [as built: a successful render must not contain the text of a Textwire error]" +
 			"Non-trivial: the case makes the implementation report an error (a fault was turned into an error value)",
 		Bounds: func(tier string) map[string]any {
 			if tier == "thorough" {
